@@ -312,19 +312,28 @@ Definition un_dec (j : jv) : option (option bytes) :=
   end.
 
 (* input: file, per-credential decoded SPN (or nothing), SPNs to look up.
-   output: the session credential and, per query, the cached credential *)
+   output: the session (realm, auth/end/renew times, key, TGT bytes) and, per query, the cached entry
+   (auth/start/end/renew times, key, ticket bytes) *)
+Definition j_session (realm : bytes) (c : cred) : jv :=
+  JL [JB realm; JI (c_auth c); JI (c_end c); JI (c_renew c); JI (c_ktype c); JB (c_key c); JB (c_ticket c)].
+Definition j_centry (o : option cred) : jv :=
+  match o with
+  | Some c => JL [JI 1; JI (c_auth c); JI (c_start c); JI (c_end c); JI (c_renew c); JI (c_ktype c);
+                  JB (c_key c); JB (c_ticket c)]
+  | None => JL [JI 0]
+  end.
+
 Definition cc_client_j (j : jv) : jv :=
   match j with
   | JL [JB b; JL dec; JL qs] =>
     match map_opt un_dec dec, map_opt as_bytes qs with
     | Some dec', Some qs' =>
-      jres (fun st => [j_cred (cs_session st);
-                       JL (map (fun q => match cache_lookup (cs_cache st) q None with
-                                         | Some c => JL [JI 1; j_cred c]
-                                         | None => JL [JI 0]
-                                         end) qs')])
+      jres (fun '(realm, st) => [j_session realm (cs_session st);
+                                 JL (map (fun q => j_centry (cache_lookup (cs_cache st) q None)) qs')])
            (do cc <- cc_unmarshal b;
-            if (length (cc_creds cc) =? length dec')%nat then client_from_ccache cc dec' else Err 98)
+            if (length (cc_creds cc) =? length dec')%nat
+            then do st <- client_from_ccache cc dec'; Ok (cp_realm (cc_princ cc), st)
+            else Err 98)
     | _, _ => jbad
     end
   | _ => jbad
